@@ -167,3 +167,81 @@ def wellformed(ent):
         else:
             return ('unknown-type', str(typ))
     return None
+
+
+# ---- (start,end,duration) TIMEX triples -------------------------------------------------------
+
+_TRIPLE = re.compile(r'^\(([^,()]*),([^,()]*),([^,()]*)\)$')
+_DUR = re.compile(r'^P(?:(-?\d+(?:\.\d+)?)Y)?(?:(-?\d+(?:\.\d+)?)M)?(?:(-?\d+(?:\.\d+)?)W)?(?:(-?\d+(?:\.\d+)?)D)?'
+                  r'(?:T(?:(-?\d+(?:\.\d+)?)H)?(?:(-?\d+(?:\.\d+)?)M)?(?:(-?\d+(?:\.\d+)?)S)?)?$')
+
+
+def parse_endpoint(tx):
+    """('date', date) | ('datetime', datetime) | ('time', seconds) | None when not definite"""
+    m = _TX_DATE.match(tx)
+    try:
+        if m:
+            return 'date', date(int(m.group(1)), int(m.group(2)), int(m.group(3)))
+        m = _TX_DATETIME.match(tx)
+        if m:
+            return 'datetime', datetime(int(m.group(1)), int(m.group(2)), int(m.group(3)), int(m.group(4)),
+                                        int(m.group(5) or 0), int(m.group(6) or 0))
+        m = _TX_TIME.match(tx)
+        if m:
+            return 'time', int(m.group(1)) * 3600 + int(m.group(2) or 0) * 60 + int(m.group(3) or 0)
+    except ValueError:
+        return None
+    return None
+
+
+def parse_duration(tx):
+    """dict(years, months, days, seconds) or None"""
+    m = _DUR.match(tx)
+    if not m or tx in ('P', 'PT'):
+        return None
+    y, mo, w, d, h, mi, s = [float(x) if x else 0.0 for x in m.groups()]
+    return {'years': y, 'months': mo, 'days': w * 7 + d, 'seconds': h * 3600 + mi * 60 + s}
+
+
+def add_months(d, n):
+    idx = d.year * 12 + d.month - 1 + n
+    y, m = idx // 12, idx % 12 + 1
+    day = min(d.day, days_in_month(y, m))
+    return d.replace(year=y, month=m, day=day)
+
+
+def triple_consistent(val):
+    """C10 oracle on one resolution value carrying a (start,end,duration) TIMEX with definite endpoints.
+    Returns None (consistent or not applicable) or a failure kind."""
+    m = _TRIPLE.match(val.get('timex') or '')
+    if not m:
+        return None
+    a, b, dur = m.groups()
+    pa, pb, pd = parse_endpoint(a), parse_endpoint(b), parse_duration(dur)
+    if pa is None or pb is None or pa[0] != pb[0]:
+        return None
+    kind = pa[0]
+    fmt = {'date': lambda x: x.isoformat(), 'datetime': lambda x: x.strftime('%Y-%m-%d %H:%M:%S'),
+           'time': lambda x: '%02d:%02d:%02d' % (x // 3600, x % 3600 // 60, x % 60)}[kind]
+    if val.get('start') is not None and val.get('start') != fmt(pa[1]):
+        return 'start-differs-from-timex'
+    if val.get('end') is not None and val.get('end') != fmt(pb[1]):
+        return 'end-differs-from-timex'
+    if pd is None:
+        return 'duration-unparsable'
+    if kind == 'time':
+        diff = (pb[1] - pa[1])
+        want = pd['days'] * 86400 + pd['seconds']
+        if pd['years'] or pd['months'] or (diff != want and diff % 86400 != want % 86400):
+            return 'end-minus-start-differs-from-duration'
+        return None
+    sa = pa[1] if kind == 'datetime' else datetime(pa[1].year, pa[1].month, pa[1].day)
+    sb = pb[1] if kind == 'datetime' else datetime(pb[1].year, pb[1].month, pb[1].day)
+    if pd['years'] or pd['months']:
+        if pd['years'] != int(pd['years']) or pd['months'] != int(pd['months']):
+            return None
+        exp = add_months(sa, int(pd['years']) * 12 + int(pd['months'])) + timedelta(days=pd['days'], seconds=pd['seconds'])
+        return None if exp == sb else 'end-minus-start-differs-from-duration'
+    if (sb - sa).total_seconds() != pd['days'] * 86400 + pd['seconds']:
+        return 'end-minus-start-differs-from-duration'
+    return None
